@@ -82,6 +82,15 @@ CHECKS = {
    note="Enumeration over mutation positions for small artefacts, seeded sampling for large ones; sampling over the histories that produce the artefacts. The allocation bound allows the codec's own 16 MiB max_buffer cap. One panic inside the third-party zip parser (overflow-check builds only) is a known finding.",
    tech="deterministic simulation: fault injection on stored bytes and wire buffers (bit flips, truncation, length-field edits, splices) with panic / hang / allocation monitors"),
 
+ "C17": dict(cat="exploration", design="DESIGN.md section 6 C17",
+   text="Two devices of one account and the real server; one device edits file secrets whose content is an external encrypted blob (create with several sizes, replace content, replace by embedded content, meta-only update, move between folders, archive/unarchive, delete secret, delete folder), both devices sync through the real sync path, blob transfer is driven against the real upload/download/move/delete/compare routes of the server router, and damaged or hostile uploads are injected as transport faults (altered byte, truncated, empty, connection reset mid-body, valid bytes under another name, appended bytes, other content for an existing name). After every step: replay(file event log) == blobs named by the live file secrets; blobs on disk == replay(file log) on the editing device and, once transfers settled and logs converged, on the second device and the server; every blob name == SHA-256(bytes); decrypt(blob) == original content; a refused upload leaves the server's file tree byte-for-byte unchanged.",
+   note="The retry / progress / cancellation machinery of sos_net's transfer queue is replaced by a sequential settle loop issuing the same requests (stub). Generated plans keep a single editing device, as the property quantifies; two-editor plans can be written by hand (observations/). age's scrypt calibration reads the simulated clock (slow simulated machine => small work factor). Sampling only.",
+   tech="deterministic simulation: multi-device world with simulated transport, transfer faults (damaged / hostile uploads) and content-addressing oracles"),
+ "C18": dict(cat="exploration", design="DESIGN.md section 6 C18",
+   text="Single-device histories (both backends = archive v2 / v3, both ciphers, several folders with flags and descriptions, all secret kinds, 0-3 external attachments, restarts) end with export through the normal API, import into empty storage of the same backend, sign-in with the same password and comparison with the model (every decrypted secret, folder attributes, attachment blobs byte-for-byte, replay == served == mirror on the restored account). The archive is then damaged as a disk or hostile sender would (content byte of a checksummed entry or attachment, manifest checksum, entry removed, extra entries named ../x, files/<id>/../../../../x, ..\\..\\x, C:\\x, an absolute path, duplicate names) and imported into fresh storage inside a sentinel directory: checksum mismatches must be rejected without leaving an account, nothing may be written outside the target, an accepted archive must restore the same content, the import must not panic.",
+   note="Archive damage is stored-byte / hostile-peer fault injection at the end of simulated histories; v1 archives and cross-version upgrade imports are not driven. Sampling over histories, enumeration over the damage kinds per run.",
+   tech="deterministic simulation: seeded account histories, export/import round trip against the sequential model, fault injection on archive entries with a directory-tree oracle"),
+
 }
 
 NOT_YET = {
